@@ -91,9 +91,10 @@ FILES = {
     "MC_n1.cfg": mc(N1), "MC_n1t.cfg": mc(N1T), "MC_n2.cfg": mc(N2), "MC_n2b.cfg": mc(N2B), "MC_n2f.cfg": mc(N2F), "MC_n2d2.cfg": mc(N2D2), "MC_n1f.cfg": mc(N1F),
     "MC_n5.cfg": mc(N5), "MC_n5t.cfg": mc(N5T), "MC_strict.cfg": mc(dict(N2, Strict="TRUE")),
     "EX_edges_n1.cfg": edges(N1E), "EX_edges_n2.cfg": edges(N2E), "EX_edges_n5.cfg": edges(N5E),
-    "EXQ_edges_n1.cfg": edges(N1E, 8), "EXQ_edges_n2.cfg": edges(N2E, 16), "EXQ_edges_n5.cfg": edges(N5E, 4),
-    "EX_edges_n2xl.cfg": edges(N2XL), "EX_edges_n1f.cfg": edges(N1F),
-    "EX_edges_n2f.cfg": edges(N2F),
+    "EXQ_edges_n1.cfg": edges(N1E, 4), "EXQ_edges_n2.cfg": edges(N2E, 8), "EXQ_edges_n5.cfg": edges(N5E, 2),
+    "EXT_edges_n1.cfg": edges(N1E, 2), "EXT_edges_n2.cfg": edges(N2E, 4), "EXT_edges_n2xl.cfg": edges(N2XL, 3),
+    "EXT_edges_n2f.cfg": edges(N2F, 4),
+    "EX_edges_n1f.cfg": edges(N1F),
     "EX_strict.cfg": edges(dict(N2E, Strict="TRUE")),
     "EX_sim.cfg": sim(SIM, 120),
     "Trace_n2.cfg": trace(REAL2), "Trace_n5.cfg": trace(REAL5),
